@@ -87,7 +87,7 @@ impl Spec {
             mirroring,
             active_fat: if mirroring { 0 } else { rng.below(u64::from(nfats)) as u32 },
             reserved,
-            root_entries: if fat == 32 { 0 } else { *rng.pick(&[16u32, 32, 64, 224, 512]) * (bps / 512) },
+            root_entries: if fat == 32 { 0 } else { *rng.pick(&[16u32, 32, 64, 224, 512]) * (bps / 512) + if rng.chance(1, 6) { *rng.pick(&[1u32, 4, 8, 100]) } else { 0 } },
             clusters,
             slack_sectors: if spc > 1 { rng.below(u64::from(spc)) as u32 } else { 0 },
             extra_fat_sectors: rng.below(3) as u32,
